@@ -56,7 +56,8 @@ theorem recover_facts (env : Env) (c : Config) (x : Disk) (n : Nat) (h : (recove
 /-- The records the next launch may select: those recorded before the interrupted launch — if
     that state was a readable state of this release — or the one the interrupted call was installing. -/
 def Allowed (dpre : Disk) (v : String) (offers : List Nat) (m : Meta) : Prop :=
-  (Settled dpre v ∧ InSlot (loadPatchesState dpre) m) ∨ m.number ∈ offers
+  (Settled dpre v ∧ InSlot (loadPatchesState dpre) m) ∨
+  (m.number ∈ offers ∧ (Settled dpre v → m.number ∉ (loadPatchesState dpre).bad))
 
 def PjOK (A : Meta → Prop) (pj : JFile PatchesState) : Prop := ∀ m, InSlot (pj.getD {}) m → A m
 
@@ -318,8 +319,8 @@ theorem segs_installStage (base : Option Bytes) (o : Offer) (dl : Option Bytes) 
           · simp only [List.mem_singleton] at hsg; subst hsg
             exact seg_install cfg A d hst hd o out hnew q hq
 
-theorem segs_afterCheck (base : Option Bytes) (r : CheckResp) (dl : Option Bytes)
-    (hnew : ∀ o, r.patch = some o → ∀ m : Meta, m.number = o.number → A m) :
+theorem segs_afterCheck (base : Option Bytes) (r : CheckResp) (dl : Option Bytes) (F : List Nat) (hF : BanD d F)
+    (hnew : ∀ o, r.patch = some o → o.number ∉ F → ∀ m : Meta, m.number = o.number → A m) :
     ∀ q ∈ segCrashPairs (afterCheckSegs env cfg base d r dl), PjOK A q.2 := by
   intro q hq
   have h1 := rollBackIfNeeded_settled env cfg d r.rolledBack hst
@@ -339,12 +340,16 @@ theorem segs_afterCheck (base : Option Bytes) (r : CheckResp) (dl : Option Bytes
           have a2 : SlotsOK A (shouldInstall env cfg (rollBackIfNeeded env cfg d r.rolledBack) o.number).1 :=
             SlotsOK_sub (slots_shouldInstall env cfg _ o.number h1) a1
           cases hs : (shouldInstall env cfg (rollBackIfNeeded env cfg d r.rolledBack) o.number).2 with
-          | ok => simp only [hs] at hq; exact segs_installStage env cfg A _ h2 a2 base o dl (hnew o hp) q hq
+          | ok =>
+            simp only [hs] at hq
+            have hnotF : o.number ∉ F := fun hm =>
+              shouldInstall_ok_notBad env cfg _ o.number h1 hs ((rollBackIfNeeded_ban env cfg d F r.rolledBack hst hF).1 _ hm)
+            exact segs_installStage env cfg A _ h2 a2 base o dl (hnew o hp hnotF) q hq
           | knownBad => simp [hs] at hq
           | alreadyInstalled => simp [hs] at hq
 
-theorem segs_updateCore (base : Option Bytes) (sc : UpdateScript)
-    (hnew : ∀ o, sc.resp.bind (·.patch) = some o → ∀ m : Meta, m.number = o.number → A m) :
+theorem segs_updateCore (base : Option Bytes) (sc : UpdateScript) (F : List Nat) (hF : BanD d F)
+    (hnew : ∀ o, sc.resp.bind (·.patch) = some o → o.number ∉ F → ∀ m : Meta, m.number = o.number → A m) :
     ∀ q ∈ segCrashPairs (updateCoreSegs env cfg base d sc), PjOK A q.2 := by
   intro q hq
   have e1 := secCopyEvents_disk cfg d hst
@@ -357,7 +362,7 @@ theorem segs_updateCore (base : Option Bytes) (sc : UpdateScript)
     | some r =>
       simp only [hr] at hq
       exact segs_afterCheck env cfg A _ (secClearEvents_settled cfg d hst) (SlotsOK_sub (slots_secClearEvents cfg d hst) hd)
-        base r sc.dl (fun o ho => hnew o (by simp [hr, ho])) q hq
+        base r sc.dl F (secClearEvents_ban cfg d F hst hF) (fun o ho => hnew o (by simp [hr, ho])) q hq
 
 theorem segs_checkCore (resp : Option CheckResp) : ∀ q ∈ segCrashPairs (checkCoreSegs env cfg d resp), PjOK A q.2 := by
   intro q hq
@@ -378,8 +383,8 @@ end
 
 /-- Every section of every call, from a readable state of this release whose records are allowed. -/
 theorem segs_op (env : Env) (cfg : Config) (A : Meta → Prop) (w : World) (op : Op)
-    (hst : Settled w.disk cfg.version) (hd : SlotsOK A w.disk)
-    (hnew : ∀ o, op.offer = some o → ∀ m : Meta, m.number = o.number → A m) :
+    (hst : Settled w.disk cfg.version) (hd : SlotsOK A w.disk) (F : List Nat) (hF : BanD w.disk F)
+    (hnew : ∀ o, op.offer = some o → o.number ∉ F → ∀ m : Meta, m.number = o.number → A m) :
     ∀ q ∈ segCrashPairs (opSegs env cfg w op), PjOK A q.2 := by
   intro q hq
   cases op with
@@ -403,7 +408,7 @@ theorem segs_op (env : Env) (cfg : Config) (A : Meta → Prop) (w : World) (op :
     exact seg_load cfg A _ hst hd q hq
   | check chan resp => exact segs_checkCore env cfg A _ hst hd resp q hq
   | update chan sc =>
-    exact segs_updateCore env cfg A _ hst hd (w.base cfg) sc (fun o ho => hnew o (by simpa [Op.offer, Op.respOf] using ho)) q hq
+    exact segs_updateCore env cfg A _ hst hd (w.base cfg) sc F hF (fun o ho => hnew o (by simpa [Op.offer, Op.respOf] using ho)) q hq
   | init p => simp [opSegs, segCrashPairs] at hq
   | restart => simp [opSegs, segCrashPairs] at hq
   | auto => simp [opSegs, segCrashPairs] at hq
@@ -434,11 +439,39 @@ def LaunchOp : Op → Prop
 /-- One call of a configured process keeps the state readable and its records allowed. -/
 theorem step_launch_inv (env : Env) (cfg : Config) (A : Meta → Prop) (w : World) (op : Op)
     (hc : w.config = some cfg) (hst : Settled w.disk cfg.version) (hd : SlotsOK A w.disk) (hop : LaunchOp op)
-    (hnew : ∀ o, op.offer = some o → ∀ m : Meta, m.number = o.number → A m) :
-    (step env w op).1.config = some cfg ∧ Settled (step env w op).1.disk cfg.version ∧ SlotsOK A (step env w op).1.disk := by
+    (F : List Nat) (hF : BanD w.disk F)
+    (hnew : ∀ o, op.offer = some o → o.number ∉ F → ∀ m : Meta, m.number = o.number → A m) :
+    (step env w op).1.config = some cfg ∧ Settled (step env w op).1.disk cfg.version ∧ SlotsOK A (step env w op).1.disk ∧
+      BanD (step env w op).1.disk F := by
+  -- bans are kept by every call of a launch
+  have hban : BanD (step env w op).1.disk F := by
+    have hs : ShowsDisk w (w.view .unit []) := showsDisk_view w .unit []
+    have h := step_ban env w op F (w.view .unit []) hs hF
+    apply BanD_mono _ h
+    intro x hx
+    have hnr : resetsState w.config op (w.view .unit []) = false := by
+      cases he : entersWith w.config op with
+      | none => simp [resetsState, he]
+      | some c =>
+        have : c = cfg := by
+          cases op <;> simp [entersWith, hc] at he <;> first | exact he.symm | skip
+          case check chan resp =>
+            cases resp with
+            | none => simp [entersWith] at he
+            | some r => simp only [entersWith, hc] at he; split at he <;> first | (cases he; rfl) | cases he
+        subst this
+        exact not_resets_of_settled w _ hs op c he hst
+    have hsd : op.isStateDamage = false := by cases op <;> first | rfl | exact hop.elim
+    simp only [failedAfter, G02.next, hsd, hnr, Bool.or_self, Bool.false_eq_true, if_false]
+    split
+    · split
+      · exact hx
+      · exact List.mem_cons_of_mem _ hx
+    · exact hx
   refine ⟨?_, ?_⟩
   · rw [step_config, hc]; cases op <;> first | rfl | exact hop.elim
-  · cases he : entersWith w.config op with
+  · suffices h : Settled (step env w op).1.disk cfg.version ∧ SlotsOK A (step env w op).1.disk from ⟨h.1, h.2, hban⟩
+    cases he : entersWith w.config op with
     | none =>
       rw [step_disk_noenter env w op he]
       cases op <;> first | exact ⟨hst, hd⟩ | exact hop.elim
@@ -480,26 +513,38 @@ theorem step_launch_inv (env : Env) (cfg : Config) (A : Meta → Prop) (w : Worl
       by_cases hinst : ∃ chan sc, op = .update chan sc ∧ (updateCore env c (w.base c) w.disk sc).2.1 = .installed
       · obtain ⟨chan, sc, rfl, hi⟩ := hinst
         obtain ⟨o, out, ho, _, hslots⟩ := updateCore_install_spec env c (w.base c) w.disk sc hst hi
+        -- the installed record is the selection afterwards, and no banned number is selected
+        have hnotF : o.number ∉ F := by
+          obtain ⟨o', out', ho', _, _, hnx⟩ := update_installed_sound env c (w.base c) w.disk sc hst hi
+          have hoo : o' = o := by
+            have h1 : sc.resp.bind (·.patch) = some o := by simpa [Op.offer, Op.respOf] using ho
+            rw [h1] at ho'; exact (Option.some.inj ho').symm
+          subst hoo
+          have hd' : (step env w (.update chan sc)).1.disk = (updateCore env c (w.base c) w.disk sc).1 := by
+            simp [step, update, hc]
+          rw [hd'] at hban
+          exact hban.2.1 _ hnx
         intro m hm
         rcases hslots m hm with h | h
-        · exact hnew o (by simpa [Op.offer, Op.respOf] using ho) m (by rw [h])
+        · exact hnew o (by simpa [Op.offer, Op.respOf] using ho) hnotF m (by rw [h])
         · exact hd m h
       · exact SlotsOK_sub (slots_opDisk env c w op hst (fun chan sc h hi => hinst ⟨chan, sc, h, hi⟩)) hd
 
 /-- Every section of every call of a launch. -/
 theorem segs_ops (env : Env) (cfg : Config) (A : Meta → Prop) (ops : List Op) :
-    ∀ (w : World), w.config = some cfg → Settled w.disk cfg.version → SlotsOK A w.disk →
-      (∀ op ∈ ops, LaunchOp op) → (∀ op ∈ ops, ∀ o, op.offer = some o → ∀ m : Meta, m.number = o.number → A m) →
+    ∀ (w : World) (F : List Nat), w.config = some cfg → Settled w.disk cfg.version → SlotsOK A w.disk → BanD w.disk F →
+      (∀ op ∈ ops, LaunchOp op) →
+      (∀ op ∈ ops, ∀ o, op.offer = some o → o.number ∉ F → ∀ m : Meta, m.number = o.number → A m) →
       ∀ q ∈ segCrashPairs (opsSegs env cfg w ops), PjOK A q.2 := by
   induction ops with
-  | nil => intro w _ _ _ _ _ q hq; simp [opsSegs, segCrashPairs] at hq
+  | nil => intro w F _ _ _ _ _ _ q hq; simp [opsSegs, segCrashPairs] at hq
   | cons op rest ih =>
-    intro w hc hst hd hops hnew q hq
+    intro w F hc hst hd hF hops hnew q hq
     simp only [opsSegs, segCrashPairs, List.flatMap_append, List.mem_append] at hq
     rcases hq with hq | hq
-    · exact segs_op env cfg A w op hst hd (hnew op List.mem_cons_self) q hq
-    · obtain ⟨h1, h2, h3⟩ := step_launch_inv env cfg A w op hc hst hd (hops op List.mem_cons_self) (hnew op List.mem_cons_self)
-      exact ih _ h1 h2 h3 (fun x hx => hops x (List.mem_cons_of_mem _ hx)) (fun x hx => hnew x (List.mem_cons_of_mem _ hx)) q hq
+    · exact segs_op env cfg A w op hst hd F hF (hnew op List.mem_cons_self) q hq
+    · obtain ⟨h1, h2, h3, h4⟩ := step_launch_inv env cfg A w op hc hst hd (hops op List.mem_cons_self) F hF (hnew op List.mem_cons_self)
+      exact ih _ F h1 h2 h3 h4 (fun x hx => hops x (List.mem_cons_of_mem _ hx)) (fun x hx => hnew x (List.mem_cons_of_mem _ hx)) q hq
 
 theorem mem_offersOf (ops : List Op) (op : Op) (o : Offer) (h : op ∈ ops) (ho : op.offer = some o) : o.number ∈ offersOf ops := by
   simp only [offersOf, List.mem_filterMap]
@@ -508,13 +553,17 @@ theorem mem_offersOf (ops : List Op) (op : Op) (o : Offer) (h : op ∈ ops) (ho 
 /-- The state files a process can leave behind when it dies anywhere in a launch
     (initialisation, then any calls): all harmless. -/
 theorem launch_files_ok (env : Env) (cfg : Config) (libs : List (String × Bytes)) (d : Disk) (p : InitParams) (ops : List Op)
-    (hp : mkConfig p = some cfg) (hops : ∀ op ∈ ops, LaunchOp op) :
+    (hp : mkConfig p = some cfg) (hops : ∀ op ∈ ops, LaunchOp op)
+    (hban : Settled d cfg.version → BanD d (loadPatchesState d).bad) :
     ∀ q ∈ files d :: segCrashPairs (launchSegs env cfg { disk := d, config := none, libs := libs } p ops),
       FilesOK (Allowed d cfg.version (offersOf ops)) cfg.version q := by
   intro q hq
-  have hnew : ∀ op ∈ ops, ∀ o, op.offer = some o → ∀ m : Meta, m.number = o.number →
-      Allowed d cfg.version (offersOf ops) m := by
-    intro op hop o ho m hm; right; rw [hm]; exact mem_offersOf ops op o hop ho
+  have hnewS : Settled d cfg.version → ∀ op ∈ ops, ∀ o, op.offer = some o → o.number ∉ (loadPatchesState d).bad →
+      ∀ m : Meta, m.number = o.number → Allowed d cfg.version (offersOf ops) m := by
+    intro _ op hop o ho hnb m hm; right; rw [hm]; exact ⟨mem_offersOf ops op o hop ho, fun _ => hnb⟩
+  have hnewU : ¬ Settled d cfg.version → ∀ op ∈ ops, ∀ o, op.offer = some o → o.number ∉ ([] : List Nat) →
+      ∀ m : Meta, m.number = o.number → Allowed d cfg.version (offersOf ops) m := by
+    intro hu op hop o ho _ m hm; right; rw [hm]; exact ⟨mem_offersOf ops op o hop ho, fun h => absurd h hu⟩
   have hw1 : (step env { disk := d, config := none, libs := libs } (.init p)).1 =
       { disk := secHandlePriorBootFailure env cfg d, config := some cfg, libs := libs } := by
     simp [step, init_effective env { disk := d, config := none, libs := libs } p cfg rfl hp]
@@ -526,7 +575,12 @@ theorem launch_files_ok (env : Env) (cfg : Config) (libs : List (String × Bytes
     · exact PjOK_files hd
     · exact seg_failure env cfg _ d hst hd _ q hq
     · rw [hw1] at hq
-      exact segs_ops env cfg _ ops _ rfl (secHandlePrior_settled env cfg d hst) (SlotsOK_sub (slots_secHandlePrior env cfg d hst) hd) hops hnew q hq
+      have hb1 : BanD (secHandlePriorBootFailure env cfg d) (loadPatchesState d).bad := by
+        apply BanD_mono _ (secHandlePrior_ban env cfg d _ hst (hban hst))
+        intro x hx; split
+        · exact List.mem_cons_of_mem _ hx
+        · exact hx
+      exact segs_ops env cfg _ ops _ _ rfl (secHandlePrior_settled env cfg d hst) (SlotsOK_sub (slots_secHandlePrior env cfg d hst) hd) hb1 hops (hnewS hst) q hq
   · rcases hq with rfl | hq | hq
     · intro hs; exact absurd ((settledF_files d cfg.version).1 hs) hst
     · -- the reset: patches_state.json is emptied before state.json records this release
@@ -542,7 +596,7 @@ theorem launch_files_ok (env : Env) (cfg : Config) (libs : List (String × Bytes
       · intro _; exact PjOK_empty _
     · rw [hw1, secHandlePrior_unsettled_clean env cfg d hst] at hq
       intro _
-      refine segs_ops env cfg _ ops { disk := cleanDisk cfg.version, config := some cfg, libs := libs } rfl (settled_clean _) ?_ hops hnew q hq
+      refine segs_ops env cfg _ ops { disk := cleanDisk cfg.version, config := some cfg, libs := libs } [] rfl (settled_clean _) ?_ (BanD_nil _) hops (hnewU hst) q hq
       intro m hm; simp [InSlot, loadPatchesState, cleanDisk, JFile.getD] at hm
 
 /-- **C04 (process death).** Let a launch — an effective initialisation followed by any calls,
@@ -553,20 +607,24 @@ theorem launch_files_ok (env : Env) (cfg : Config) (libs : List (String × Bytes
     (initialisation with crash detection, then the next-boot query) selects a patch `n`, then
     * its artifact validates at that moment (exists, recorded size, signature if a key is configured);
     * `n` was recorded in `d` before the interrupted launch and `d` was a readable state of this
-      release, or `n` is a patch an update of the interrupted launch was installing — so nothing of
-      another release's (or an unreadable) state is ever selected;
+      release, or `n` is a patch an update of the interrupted launch was installing and was not
+      banned in `d` — so nothing of another release's (or an unreadable) state is ever selected, and
+      (with `crash_safe_not_banned`) nothing that was banned before the interrupted launch;
+      (`hban`: in a readable state no slot holds a banned number — C02's invariant of reachable states)
     * `n` is not the patch recorded as booting at the moment of death. -/
 theorem crash_safe (env : Env) (cfg : Config) (libs : List (String × Bytes)) (d : Disk) (p : InitParams) (ops : List Op)
-    (hp : mkConfig p = some cfg) (hops : ∀ op ∈ ops, LaunchOp op) (q : StateFiles)
+    (hp : mkConfig p = some cfg) (hops : ∀ op ∈ ops, LaunchOp op)
+    (hban : Settled d cfg.version → BanD d (loadPatchesState d).bad) (q : StateFiles)
     (hq : q ∈ files d :: segCrashPairs (launchSegs env cfg { disk := d, config := none, libs := libs } p ops))
     (pd : Option PatchesDir) (cfg' : Config) (hv : cfg'.version = cfg.version) (n : Nat)
     (h : (recover env cfg' { stateJson := q.1, patchesJson := q.2, patches := pd }).2 = some n) :
     ∃ m : Meta, m.number = n ∧
       validate env cfg'.key (recover env cfg' { stateJson := q.1, patchesJson := q.2, patches := pd }).1 m = true ∧
-      ((Settled d cfg.version ∧ InSlot (loadPatchesState d) m) ∨ n ∈ offersOf ops) ∧
+      ((Settled d cfg.version ∧ InSlot (loadPatchesState d) m) ∨
+        (n ∈ offersOf ops ∧ (Settled d cfg.version → n ∉ (loadPatchesState d).bad))) ∧
       (q.2.getD {}).booting.map (·.number) ≠ some n := by
   obtain ⟨hs, ⟨m, hm, hmn, hval⟩, hboot⟩ := recover_facts env cfg' _ n h
-  have hok := launch_files_ok env cfg libs d p ops hp hops q hq
+  have hok := launch_files_ok env cfg libs d p ops hp hops hban q hq
   have hsf : SettledF q.1 cfg.version := by rw [← hv]; exact hs
   have hA := hok hsf m hm
   refine ⟨m, hmn, hval, ?_, hboot⟩
